@@ -1,6 +1,7 @@
 import Deb822Verif.Driver.Proto
 import Deb822Verif.Model.TypedDoc
 import Deb822Verif.Gen.Structs
+import Deb822Verif.Props.C20Blank
 /-! Driver family `typed` (C20): `typed.<kind> <text> <E>`. -/
 namespace Deb822Verif.Driver.TypedDoc
 open Deb822Verif Proto Deb Derive Deb822Verif.TypedDoc
@@ -145,8 +146,23 @@ def trigHashEnv (ki : KindInfo) (v : TV) : Bool :=
   (structsOf ki v).any fun p => p.1 == "buildinfo.Buildinfo" &&
     p.2.any fun f => f.1 == c!"Environment" && hasInfix hashLine f.2
 
+/-- F-C20-10: the printed `Signed-By` value of an apt-sources repository is a key block whose first
+    line starts with `#` (printed on a continuation line of its own: a comment line for the reader);
+    the per-field predicate `signedHashField` is defined in `Props/C20Blank.lean`, its negation is the
+    hypothesis `hSignedHash` of `C20Apt.C20_roundtrip_repos_shipped_keyblock` -/
+def trigHashSigned (ki : KindInfo) (v : TV) : Bool :=
+  (structsOf ki v).any fun p => p.1 == "aptsources.Repository" &&
+    p.2.any Props.C20Blank.signedHashField
+
+/-- F-C20-9 (lossy-reader kinds release / source / package): the trigger is defined once, in
+    `Props/C20Blank.lean` (`trigBlankFirst`, a predicate on the request text: some field has an empty
+    first value line followed by continuation lines) -/
+def trigBlankFirstKind (ki : KindInfo) (s : Str) : Bool :=
+  ki.lossyReader && Props.C20Blank.trigBlankFirst s
+
 def handleCore (ki : KindInfo) (s : Str) : Option String := do
     let r1 := parse ki.kind s
+    let blank := if trigBlankFirstKind ki s then ["F-C20-9"] else []
     let ll : String :=
       if ki.lossyReader then
         match ki.kind with
@@ -161,7 +177,9 @@ def handleCore (ki : KindInfo) (s : Str) : Option String := do
         | _ => "-"
       else "-"
     match r1 with
-    | .error e1 => pure s!"p1={showErr e1} t1=- p2=- t2=- ll={ll}"
+    | .error e1 =>
+      let sfx := if blank.isEmpty then "" else "\t!" ++ ",".intercalate blank
+      pure (s!"p1={showErr e1} t1=- p2=- t2=- ll={ll}" ++ sfx)
     | .ok v1 =>
       let t1 := print ki.kind v1
       let p1 := showTV ki v1
@@ -169,6 +187,8 @@ def handleCore (ki : KindInfo) (s : Str) : Option String := do
         ++ (if trigHashPattern ki v1 then ["F-C20-5"] else [])
         ++ (if trigVcsUnstable ki v1 then ["F-C20-7"] else [])
         ++ (if trigHashEnv ki v1 then ["F-C20-8"] else [])
+        ++ blank
+        ++ (if trigHashSigned ki v1 then ["F-C20-10"] else [])
       let sfx := if trig.isEmpty then "" else "\t!" ++ ",".intercalate trig
       match parse ki.kind t1 with
       | .error e2 => pure (s!"p1={p1} t1={encStr t1} p2={showErr e2} t2=- ll={ll}" ++ sfx)
